@@ -22,6 +22,12 @@ def stepF (line : String) : String :=
       if !s.WF || q.length != s.nq then "bad-args" else
       joinToks ((Mj.kinematics s q).flatMap fun x => x.toks)
     | none => "bad-args"
+  | "mjvel" :: ts =>
+    match Rd.run (readSysState Float) ts with
+    | some (s, q, qd) =>
+      if !s.WF || q.length != s.nq || qd.length != s.nv then "bad-args" else
+      joinToks ((Mj.kinematicsVel s q qd).flatMap fun x => x.1.toks ++ x.2.toks)
+    | none => "bad-args"
   | "w2j" :: ts =>
     let p : Rd (Sys Float × List (Tf Float) × List (Motion Float)) := do
       let s ← Rd.sys; let x ← Rd.list Rd.tf; let xd ← Rd.list Rd.motion; pure (s, x, xd)
